@@ -1,7 +1,8 @@
 use crate::common::Prop;
 
+pub mod c01;
 pub mod c08;
 
 pub fn all() -> Vec<Box<dyn Prop>> {
-    vec![Box::new(c08::C08)]
+    vec![Box::new(c01::C01), Box::new(c08::C08)]
 }
